@@ -5,7 +5,8 @@ LEVEL_TEXT = ("Clause-level static rules for the engine-side necessary condition
               "the post-states of ALL predecessors starting from bottom; loops are left only at a post-fixpoint "
               "new_pre <= pre where new_pre joins all predecessors after the body was re-analysed; the stored post-state is "
               "the result of analysing the block. Soundness of each domain's transfer functions is NOT decided here "
-              "(see C03/C04/C08 for the clauses that are).")
+              "(see C03/C04/C08 for the clauses that are)."
+              " The stabilisation test and block-entry join of the wrapped-interval domain rest on an inclusion test whose decision tree is interpreted over all pairs of width-3 circular intervals (every yes is an inclusion).")
 ASSUMPTIONS = ["domain operations are sound (C03/C04)", "WTO well formed (C07, not decided)"]
 
 
